@@ -55,6 +55,8 @@ class Timer:
             # called from the timer's own callback: run() is still looping and
             # picks up the new expiry time; a process cannot interrupt itself
             return
-        if not self.proc.processed:
+        # the old process may have finished already (expired timer), possibly
+        # in this very instant and not yet processed: it cannot be interrupted
+        if self.proc.is_alive:
             self.proc.interrupt("restart timer")
-            self.proc = self.env.process(self.run(self.env))
+        self.proc = self.env.process(self.run(self.env))
